@@ -777,7 +777,9 @@ def run(ctx):
                         're-saved by the library or removed; histories with damaged / wrong-shape files as in C07, with two unusable '
                         'candidate files at once (wrong-shape valid .npy + unparsable file, both name assignments, after a warm-up call, '
                         'then removal and the call again) and with files overwritten in place (same inode and length) AFTER they were '
-                        'loaded or saved, followed by further calls (directed + at random in the random histories); a case is distinct by '
+                        'loaded or saved (every kind of request of every module x every kind of file that can serve it: exact / larger / with odd '
+                        'orders / with and without inverse matrices, forward and inverse, regularised), followed by the same and neighbouring '
+                        'calls served from the memory caches (directed + at random in the random histories); a case is distinct by '
                         '(stage, method, damage kind, outcome classes)',
                    samples=samples, input_distribution=dist, exhaustive=False, wall_impl_s=round(time.time() - t0, 1))
     ctx.assumptions += [
